@@ -264,6 +264,12 @@ def oracle(run, prim):
             ds = str(n)
             dec_cases.append("p_dec\tBcd\t%s\t%s" % (ty, ds if len(ds) % 2 == 0 else "0" + ds)); expect.append("Err")
             dec_cases.append("p_dec\tBcd\t%s\t%s" % (ty, ds + "f" if len(ds) % 2 == 1 else "0" + ds + "f")); expect.append("Err")
+    # the receipt-number field of partial reversals: exactly two bytes are consumed, whatever follows — the FFFF sentinel as
+    # well as every 4-digit number (round-5 seeded change: the sentinel branch handed its two bytes back)
+    for n in [65535, 0, 1, 99, 100, 4711, 9998, 9999] + [rng.randrange(10000) for _ in range(40)]:
+        two = "ffff" if n == 65535 else "%04d" % n
+        for suf in ("", "5a", "ffff", "0102030405"):
+            dec_cases.append("p_dec\tReceiptNo\tusize\t%s" % (two + suf)); expect.append("Ok %d %s" % (n, suf or "-"))
     # hex and CP437: bytes -> text -> bytes
     txt_cases, txt_meta = [], []
     for n in (1, 2, 3):
